@@ -16,6 +16,7 @@ LAZY_SOURCES = [
     ("vyxal/helpers.py::prefixes", ["lhs"], {"len(lhs)", "lhs[:i + 1]"}),  # both in the branch `isinstance(lhs, str)`
     ("vyxal/helpers.py::scanl", ["vector"], set()),
     ("vyxal/elements.py::vy_zip", ["lhs", "rhs"], set()),
+    ("vyxal/elements.py::interleave", ["lhs", "rhs"], set()),
 ]
 
 
@@ -68,7 +69,7 @@ class C14(Prop):
     contract_modules = ["lazylist", "laziness"]
     level = "proof"
     trusted_base = ["CPython semantics of the subset (DESIGN 2.2)", "z3 5.1 / cvc5 1.0.3 (unsat answers)", "vyxalify is the identity on Vyxal values", "laziness of C iterators (map, filter, enumerate, tee, zip_longest) is not modelled"]
-    paper_steps = ["the deductive core is the accessor layer every transformation goes through: has_ind / __getitem__ / __bool__ / __iter__ pull exactly max(0, needed - cached) items (obligations C14-*); five generator transformations (map, deltas, prefixes, cumulative reduction, zip) carry a yield-point contract: when item j is yielded at most j+1 (resp. j+2) source items have been consumed (at-yield obligations), and the source parameter flows only into non-forcing calls and the generator's own `for` (obligations C14/source-not-forced[*]); all other element-level transformations are covered by the bounded stand-in only and are NOT counted as proved"]
+    paper_steps = ["the deductive core is the accessor layer every transformation goes through: has_ind / __getitem__ / __bool__ / __iter__ pull exactly max(0, needed - cached) items (obligations C14-*); six generator transformations (map, deltas, prefixes, cumulative reduction, zip, interleave) carry a yield-point contract: when item j is yielded at most j+1 (resp. j+2) source items have been consumed (at-yield obligations), and the source parameter flows only into non-forcing calls and the generator's own `for` (obligations C14/source-not-forced[*]); all other element-level transformations are covered by the bounded stand-in only and are NOT counted as proved"]
 
     def wants(self, name):
         return "C12-" not in name
